@@ -174,6 +174,32 @@ fn suggestion_names_nothing(spec: &CmdSpec, rendered: &str) -> Option<String> {
                 }
             }
         }
+        // "a similar value exists: 'name'" (possibly several, separated by `', '`)
+        if let Some(rest) = t.strip_prefix("a similar value exists: '").or_else(|| t.strip_prefix("some similar values exist: '")) {
+            let mut declared: Vec<String> = vec!["true".into(), "false".into()];
+            spec.walk(
+                &mut |c, _| {
+                    for a in &c.args {
+                        match &a.parser {
+                            ValParser::Possible(pvs) => {
+                                for p in pvs {
+                                    declared.push(p.name.clone());
+                                    declared.extend(p.aliases.iter().cloned());
+                                }
+                            }
+                            ValParser::EnumVp => declared.extend(SIM_ENUM_LANGUAGE.iter().map(|(n, _)| n.to_string())),
+                            _ => {}
+                        }
+                    }
+                },
+                0,
+            );
+            for name in rest.trim_end_matches('\'').split("', '") {
+                if !declared.iter().any(|d| d == name) {
+                    return Some(format!("the tip names the value `{name}` which no argument declares (in that spelling)"));
+                }
+            }
+        }
         // "a similar subcommand exists: 'name'"
         if let Some(rest) = t.strip_prefix("a similar subcommand exists: '") {
             let name = rest.trim_end_matches('\'');
